@@ -491,8 +491,10 @@ class Body:
     def reaching_defs(self, local, pos):
         """defs of `local` (whole-local strong defs kill) reaching `pos`."""
         alld = self.defs().get(local, [])
-        if len(alld) <= 1:
+        if len(alld) <= 1 and not (1 <= local <= self.argc):
             return list(alld)
+        if not alld:
+            return []
         by_block = defaultdict(list)
         for d in alld:
             by_block[d[0][0]].append(d)
@@ -1006,7 +1008,8 @@ def field_of(e, name):
     if e[0] == 'variant' and e[2] == 'Some' and name == '0' and e[1][0] == 'call' and (e[1][1] or '').endswith('::next') and e[1][3]:
         # `for x in coll`: x is an element of the iterated collection
         it = e[1][3][0]
-        while it[0] == 'mutby':
+        # drop only the iterator's own advance (`next`) mutations, keep mutations of the collection
+        while it[0] == 'mutby' and all(isinstance(c, tuple) and c[0] == 'call' and (c[1] or '').endswith('::next') for c in it[1]):
             it = it[2]
         return elem_of(it, None)
     if e[0] == 'cf' and name == '0':
@@ -1053,9 +1056,11 @@ def future_calls(fut):
         seen.add(e)
         if e[0] == 'call':
             yield e
-            for a in e[3]:
-                if contains_future_call(a):
-                    todo.append(a)
+            nm = (short(e[2] or e[1]) or '').split('::')[-1]
+            if nm in FUTURE_WRAPPERS:
+                for a in e[3]:
+                    if contains_future_call(a):
+                        todo.append(a)
         elif e[0] in ('phi',):
             todo.extend(e[1])
         elif e[0] == 'mutby':
@@ -1066,6 +1071,9 @@ def future_calls(fut):
             todo.extend(v for _, v in e[3])
         elif e[0] == 'closure':
             yield e
+
+
+FUTURE_WRAPPERS = {'tic_toc', 'instrument', 'timeout', 'spawn', 'pin', 'into_future', 'in_current_span'}
 
 
 def contains_future_call(e):
